@@ -244,6 +244,37 @@ def run(facts, res):
                               "generate_identifier hashes a non-injective encoding of the path (%s): path components are arbitrary user strings, so different "
                               "paths (['x','yz'] and ['xy','z']) give the same generated identifier and two objects of one document collapse into one" % why, gi.loc(t.line))
         res.floor("U4", "generated-identifier sites", n_gen, 1)
+        # array descriptor identifiers: built in flatten from the owner's identifier and the field key
+        flb = facts.body("utils::flatten")
+        adp_ = facts.const_str("constants::ARRAY_DESCRIPTOR_PREFIX")
+        n_desc = 0
+        if flb is not None:
+            for cb in [flb] + facts.closures_of(flb.path):
+                for bi, t in cb.calls():
+                    if t.callee is None or t.callee.name != "insert" or "HashMap" not in (t.callee.path or "") or len(t.args) < 3:
+                        continue
+                    k = arg_term(cb, t, 1, 20)
+                    consts = [y[2] for y in walk(k) if y[0] == "const" and y[1] == "str"]
+                    if adp_ not in consts:
+                        continue
+                    n_desc += 1
+                    adds = [x for x in walk(k) if x[0] == "call" and callee_name(x) == "add"]
+                    parts = set()
+                    for x in adds:
+                        for a in x[2]:
+                            if not any(y[0] == "call" and callee_name(y) == "add" for y in walk(a)):
+                                roots_ = {(y[0], y[1]) for y in walk(a) if y[0] in ("var", "param", "upvar")}
+                                if roots_ and not any(y[0] == "const" for y in walk(a)):
+                                    parts.add(tuple(sorted(roots_)))
+                    hashed = any(x[0] == "call" and callee_name(x) in ("digest_string", "digest_bytes", "to_string") and
+                                 "serde_json" in ((x[4].path if x[4] else "") or "") + callee_name(x) for x in walk(k) if callee_name(x) != "to_string")
+                    inj = len(parts) <= 1 or hashed
+                    res.instance("U4", "array descriptor identifier: %d variable component(s) concatenated with constant separators; injective: %s" % (len(parts), inj), cb.loc(t.line))
+                    if not inj:
+                        res.violation("U4", "flatten|descriptor-identifier-not-injective",
+                                      "flatten names an array descriptor by concatenating %d arbitrary user strings (owner identifier, field key) with a constant "
+                                      "separator: ('a@b','c♭') and ('a','b@c♭') give the same descriptor identifier, the two arrays share one descriptor" % len(parts), cb.loc(t.line))
+        res.floor("U4", "array descriptor identifier sites in flatten", n_desc, 1)
 
     pre = facts.const_str("constants::STRING_ESCAPE_PREFIX")
     e1 = consts_of("utils::escape", {"to_string", "add"})
